@@ -133,6 +133,8 @@ class C01(Prop):
         # ids stay unique (and listing / lookup stay right) when inserts are interleaved with deletions
         for _ in range(ctx.pick(120, 2000)):
             g = storegen.HistGen(rng, nbuckets=2, grid=5)
+            if g.base == storegen.FUTURE_BASE:
+                g.base = storegen.T0  # this property speaks about dates up to 2100
             g.start()
             for _ in range(rng.randint(4, 25)):
                 b = rng.choice(g.buckets)
